@@ -208,10 +208,13 @@ def rule_registry(model):
                 changed = True
     for fi in model.all_funcs():
         for n in own_nodes(fi.node):
-            if isinstance(n, ast.Assign) and \
-                    isinstance(n.targets[0], ast.Subscript) and \
-                    isinstance(n.targets[0].value, ast.Attribute) and \
-                    n.targets[0].value.attr == 'commands':
+            rebinding = isinstance(n, ast.Assign) and any(
+                isinstance(t, ast.Attribute) and t.attr == 'commands'
+                for t in n.targets)
+            if rebinding or (isinstance(n, ast.Assign) and
+                    isinstance(n.targets[0], ast.Subscript) and
+                    isinstance(n.targets[0].value, ast.Attribute) and
+                    n.targets[0].value.attr == 'commands'):
                 ok = fi.where in locked
                 r.instance(fi.where, n, 'locked-only' if ok
                            else 'REACHABLE WITHOUT LOCK')
